@@ -16,6 +16,9 @@ impl Ident {
 }
 // the re-typing of imported classes / constructors (adds the class type to the registry, gives the name its constructor type): abstract; name and flag untouched
 #[verifier::external_body] pub fn retype_for_classes(i: &mut Ident, n: &Node) ensures final(i).name == old(i).name, final(i).read_only == old(i).read_only { unimplemented!() }
+#[verifier::external_body] pub fn parse_ident_node(n: &Node) -> (r: Result<Ident, VErr>) ensures r is Ok ==> !r->Ok_0.read_only && r->Ok_0.ty is None { unimplemented!() }
+#[verifier::external_body] pub fn set_type_no_link(i: &mut Ident) ensures final(i).name == old(i).name, final(i).read_only == old(i).read_only { unimplemented!() }
+#[verifier::external_body] pub fn add_dependency_keeps(n: &Node, i: &Ident, Ghost(w): Ghost<bool>) requires w ==> i.read_only { unimplemented!() }
 // registration in the importing scope: what becomes visible is a constant
 #[verifier::external_body] pub fn add_dependency(n: &Node, i: &Ident) requires i.read_only { unimplemented!() }
 """
@@ -30,37 +33,49 @@ def build(repo):
     except Exception as e:
         raise Undecided(f"{FILE}: arm Rule::import_name of import_names not found: {e}")
     body = arm["body"]
-    p = Pat("let mut ident = property . to_owned ( ) ;")
     at = None
-    for i in range(len(body)):
-        if p.match_at(body, i):
-            at = i; break
+    for pat in ("let mut ident = $$e ;", "let ident = $$e ;"):
+        pp = Pat(pat)
+        at = next((i for i in range(len(body)) if pp.match_at(body, i)), None)
+        if at is not None:
+            break
     if at is None:
-        p2 = Pat("let ident = property . to_owned ( ) ;")
-        for i in range(len(body)):
-            if p2.match_at(body, i):
-                at = i; break
-    if at is None:
-        raise Undecided(f"{FILE}: `let mut ident = property.to_owned();` not found in the import_name arm")
+        raise Undecided(f"{FILE}: `let mut ident = ..;` (the binding of the imported member) not found in the import_name arm")
     frag = body[at:]
     log.append(("R0", "import_names, arm Rule::import_name", "from `let mut ident = property.to_owned();` to the end of the arm", "fragment: `property` (the exporter's identifier, with any flag) and `names` are parameters"))
-    b = translate(frag, [
+    rules = [
         Rule("R6", "match ident . ty ( ) . unwrap ( ) . as_ref ( ) { $$arms }", "retype_for_classes ( & mut ident , input ) ;", count=1, why="re-typing of imported classes / constructors: abstract (name and const flag untouched)"),
-        Rule("R6", "input . user_data ( ) . add_dependency ( & ident ) ;", "add_dependency ( input , & ident ) ;", why="registration in the importing scope: abstract callee that requires a constant"),
-    ], log, "import_names[import_name]")
+        Rule("R6", "Self :: ident ( $$n ) . to_err_vec ( ) ?", "parse_ident_node ( input ) ?", why="Parser::ident: a fresh identifier of the written name -- not a constant (its contract: unit c10_class / C10.ident.new)"),
+        Rule("R6", "ident . set_type_no_link ( $$t ) ;", "set_type_no_link ( & mut ident ) ;", why="typing an identifier: name and const flag untouched"),
+    ]
+    b = translate(frag, rules + [Rule("R6", "input . user_data ( ) . add_dependency ( & ident ) ;", "add_dependency ( input , & ident ) ;", why="registration in the importing scope: abstract callee that requires a constant")], log, "import_names[import_name]")
+    b2 = translate(frag, rules + [Rule("R6", "input . user_data ( ) . add_dependency ( & ident ) ;", "add_dependency_keeps ( input , & ident , Ghost ( property . read_only ) ) ;", why="registration in the importing scope (second reading: at least the exporter's flag)")], [], "import_names[import_name]")
     check_closed(b, "import_names[import_name]")
     gen = header(log, f"{FILE}: Parser::import_names, arm Rule::import_name (binding of one member)") + prelude("parser.rs") + SPEC + f"""
 //@ OBL C10.import.member-const
-pub fn bind_member(property: &Ident, input: &Node, names: &mut Vec<Ident>)
-    ensures final(names)@.len() == old(names)@.len() + 1, final(names)@.subrange(0, old(names)@.len() as int) == old(names)@,
-            final(names)@.last().read_only && final(names)@.last().name == property.name,
+pub fn bind_member(property: &Ident, input: &Node, names: &mut Vec<Ident>) -> (r: Result<(), VErr>)
+    ensures r is Ok ==> final(names)@.len() == old(names)@.len() + 1 && final(names)@.subrange(0, old(names)@.len() as int) == old(names)@
+            && final(names)@.last().read_only && final(names)@.last().name == property.name,
 {{
 {render(b, 1)}
+    Ok(())
+}}
+
+// what holds today and must keep holding while D45 stands: the binding is AT LEAST as constant as the exporter's declaration (an exported class, an `export const`
+// written through) -- a binding rebuilt from the written name alone loses the flag at its source
+//@ OBL C10.import.member-keeps-flag
+pub fn bind_member_keeps(property: &Ident, input: &Node, names: &mut Vec<Ident>) -> (r: Result<(), VErr>)
+    ensures r is Ok ==> final(names)@.len() == old(names)@.len() + 1 && final(names)@.subrange(0, old(names)@.len() as int) == old(names)@
+            && (property.read_only ==> final(names)@.last().read_only) && final(names)@.last().name == property.name,
+{{
+{render(b2, 1)}
+    Ok(())
 }}
 }} // verus!
 fn main() {{}}
 """
-    return gen, [Obl("C10.import.member-const", ["C10", "C11"], fn="Parser::import_names[import_name]", desc="import_names: an imported member is registered and listed as a constant, whatever the exporter's flag")], log
+    return gen, [Obl("C10.import.member-keeps-flag", ["C10", "C11"], fn="Parser::import_names[import_name]", desc="import_names: the imported binding carries at least the exporter's const flag (an exported class stays a constant) and the member's name"),
+                 Obl("C10.import.member-const", ["C10", "C11"], fn="Parser::import_names[import_name]", desc="import_names: an imported member is registered and listed as a constant, whatever the exporter's flag")], log
 
 
 UNITS = [VUnit("c10_import_names", ["C10", "C11"], "`import a from m`: the imported member is a constant", build)]
